@@ -56,5 +56,13 @@ def step (comp : κ → κ → Bool) (p : St κ ν) : Op κ ν → St κ ν × O
   | .size => (p, .int (p.m.length - p.failedDeletes))
   | op => let (m', o) := C04.step comp p.m op; ({ p with m := m' }, o)
 
+/-- Run a whole history against the patched specification. -/
+def run (comp : κ → κ → Bool) (p : St κ ν) : List (Op κ ν) → St κ ν × List (Out κ ν)
+  | [] => (p, [])
+  | op :: ops =>
+    let (p', o) := step comp p op
+    let (p'', os) := run comp p' ops
+    (p'', o :: os)
+
 end Patched
 end GoguVerif.Spec.C04
